@@ -207,6 +207,12 @@ pub struct WireConfig {
     pub nodes_packets: u8,
     /// local record seq of each node (1..=3)
     pub seqs: Vec<u8>,
+    /// session timeout of node 0 (V) in real milliseconds (default: the crate's 1 day)
+    #[serde(default)]
+    pub v_session_timeout_ms: Option<u64>,
+    /// session cache capacity of node 0 (V) (default: the crate's 1000)
+    #[serde(default)]
+    pub v_session_capacity: Option<u8>,
 }
 
 // ------------------------------------------------------------------------------------------
@@ -325,6 +331,7 @@ fn node_record(key: &CombinedKey, addr: SocketAddr, seq: u64) -> Enr {
 }
 
 async fn spawn_handler(key_idx: u32, enr: &Enr, addr: SocketAddr, cfg: &WireConfig) -> VirtualHandler {
+    let is_v = addr == node_addr(0);
     let (ip, port) = match addr {
         SocketAddr::V4(a) => (*a.ip(), a.port()),
         _ => unreachable!(),
@@ -333,6 +340,14 @@ async fn spawn_handler(key_idx: u32, enr: &Enr, addr: SocketAddr, cfg: &WireConf
     b.request_timeout(Duration::from_millis(REQUEST_TIMEOUT_MS)).request_retries(cfg.retries);
     if cfg.filter {
         b.enable_packet_filter();
+    }
+    if is_v {
+        if let Some(ms) = cfg.v_session_timeout_ms {
+            b.session_timeout(Duration::from_millis(ms));
+        }
+        if let Some(c) = cfg.v_session_capacity {
+            b.session_cache_capacity(c as usize);
+        }
     }
     let config = b.build();
     let key = keys::key(key_idx);
